@@ -175,6 +175,8 @@ fn step_empty(first: K, n_suffix: usize) {
     if kind != K::Eof {
         assert!(after > before, "a non-Eof token consumes input");
         assert!(p.token_stream.eats >= 1);
+    } else {
+        assert!(after == before && p.token_stream.pos == p.token_stream.n, "C01: Eof is delivered only at the end and consumes nothing (the parser never saves Eof)");
     }
     if kind == K::Error {
         assert!(p.error.is_some() || p.token_stream.has_err, "Error token has a pending message");
@@ -186,8 +188,17 @@ fn step_empty(first: K, n_suffix: usize) {
             assert!(p.token_stream.pos == consumed, "C15: step consumes exactly the reference region");
             assert!(after == p.token_stream.offset_of(consumed));
             assert!(p.error.is_none(), "C15: no message is parked behind a non-error token");
-            assert!(p.macros.is_empty());
-            let (nd, dn) = unsafe { (G_DEFINES, G_DEFINED_N) };
+            let stubs_on = unsafe { crate::verif_common::G_STUBS_ON };
+            if stubs_on {
+                assert!(p.macros.is_empty());
+            }
+            // under the solver define_macro is a ghost recorder; in the native replay (no
+            // stubs) the real macro set is inspected instead
+            let (nd, dn) = if stubs_on {
+                unsafe { (G_DEFINES, G_DEFINED_N) }
+            } else {
+                (p.macros.len() as u32, p.macros.contains("N"))
+            };
             if defines {
                 assert!(nd == 1, "C15: an enabled #define defines its macro");
                 let (j, _) = ref_name(&p.token_stream);
